@@ -86,6 +86,8 @@ def resolve(name, params, d, rng):
         # an SPD ndarray may well hold integers (its inverse does not)
         B = rng.randint(-2, 3, size=(d, d))
         out[key] = layout(B.dot(B.T) + np.eye(d, dtype=B.dtype))
+      elif rng.randint(6) == 0:
+        out[key] = layout(D.spd_matrix(rng, d, cond=20.0).astype(np.float32))
       else:
         out[key] = layout(D.spd_matrix(rng, d, cond=20.0))
     elif val == '@randn':
@@ -223,6 +225,14 @@ def build(name, ds, rng, params=None, seed=0, use_fast=True, n_tuples=None,
     args = (points_arg, ds['t'])
   elif kind == 'chunks':
     chunks = D.chunk_labels(rng, ds['y'], d)
+    if rng.randint(2):
+      # chunk ids are names: any non-negative integers, not only 0..k-1
+      k_ = int(chunks.max()) + 1
+      names = np.sort(rng.choice(np.arange(3 * k_ + 2), size=k_,
+                                 replace=False))
+      if rng.randint(2):
+        names = rng.permutation(names)
+      chunks = np.where(chunks >= 0, names[np.maximum(chunks, 0)], -1)
     meta['chunks'] = chunks
     args = (points_arg, chunks)
   else:
